@@ -14,6 +14,7 @@ import (
 	"github.com/canopy-network/canopy/fsm"
 	"github.com/canopy-network/canopy/lib"
 	"github.com/canopy-network/canopy/lib/crypto"
+	"verifharness/certsim"
 	"verifharness/sim"
 )
 
@@ -410,6 +411,18 @@ func main() {
 	w6 := &sim.CaseWriter{OutDir: *outDir, Name: "c20pipe", Imports: "From V Require Import U64 Extracted DexBatch.", CaseType: "pipe_case", MFun: "pipe_mismatches", VFun: "pipe_violations", PerShard: 200}
 	pipelineCases(r.Fork(), *nPipe, *nSteps, w6, *outDir)
 	w6.Close(st)
+	// sell-order instructions of certificate results (lock / reset / close, duplicates, unknown ids, a buyer whose balance cannot take
+	// the credit) with real committee signatures through ApplyTransactions: the escrow identity before and after (shared with c04)
+	w7 := &sim.CaseWriter{OutDir: *outDir, Name: "c20cert", Imports: "From V Require Import U64 Extracted Ledger LedgerCheck LedgerBlock LedgerBlockCheck.", CaseType: "cr_case", MFun: "cr_mismatches", VFun: "cr_violations_for 20", PerShard: 25}
+	certsim.Run(r.Fork(), 1+*nPipe/2, 8, *outDir, w7, func(k string) {
+		if k == "case" {
+			st.Cases++
+			st.Distinct++
+		} else {
+			st.Outcomes[k]++
+		}
+	})
+	w7.Close(st)
 	fmt.Printf("c20: %d cases (%d distinct non-trivial) outcomes %v\n", st.Cases, st.Distinct, st.Outcomes)
 }
 
